@@ -82,18 +82,17 @@ theorem method_options_function (ops : List String) (ns : List Comment) (o : Opt
     ∀ r₁ r₂, parseNotations env sc eng ops ns o = r₁ → parseNotations env sc eng ops ns o = r₂ → r₁ = r₂ := by
   intro r₁ r₂ h₁ h₂; rw [← h₁, ← h₂]
 
-/-! ### finding (DESIGN §5 #1): the interface entry keeps the *parser's* defaults instead of the
-options it has just parsed (`Generated.intfEntryOpts = "p.opts"`), so interface-level notations
-never reach the methods. -/
+/-- **T9.2 (interface defaults reach the methods).** An interface entry carries the options parsed
+from its own doc comment, and `parseMethods` starts every method of the entry from them (before
+the repair of DESIGN §5 #1 the entry kept the parser-wide defaults). -/
+theorem intf_defaults_stored (parsed defaults : Options) : storedIntfOpts parsed defaults = parsed := rfl
 
-/-- the full statement: an interface entry carries the options parsed from its own doc -/
-def C09_intf_defaults_full_statement : Prop :=
-  ∀ parsed defaults : Options, storedIntfOpts parsed defaults = parsed
+/-- regression witness: `:typecast` on the interface is kept -/
+example : (storedIntfOpts { typecast := true } newOptions).typecast = true := by decide
 
-/-- what the code does -/
-theorem stored_is_parser_default (parsed defaults : Options) : storedIntfOpts parsed defaults = defaults := rfl
-
-/-- witness: `:typecast` on the interface is lost -/
-example : (storedIntfOpts { typecast := true } newOptions).typecast = false := by decide
+/-- every method of an entry is parsed starting from that entry's options, and from nothing else:
+`parseMethods` passes `entry.opts` to each `parseMethod` -/
+theorem methods_start_from_entry (entry : IntfEntry) (st : PState) :
+    parseMethods env sc eng entry st = parseMethods.go env sc eng entry entry.obj.methods [] false st := rfl
 
 end Convergen.Props.C09
